@@ -16,6 +16,11 @@ worlds=sorted({c["world"] for s in m.load_table()["checks"].values() for c in s[
 for w in worlds:
     m.build(work,"/repo",w,ov)
     print("built",w)
+for s in m.load_table()["checks"].values():
+    for c in s["configs"]:
+        if c.get("race") or c.get("yield"):
+            m.build(work,"/repo",c["world"],ov,race=bool(c.get("race")),yld=bool(c.get("yield")))
+            print("built",c["world"],"race" if c.get("race") else "yield")
 import shutil; shutil.rmtree(work,ignore_errors=True)
 PY
 echo setup ok
